@@ -652,6 +652,98 @@ theorem fclaimE_letpar {n : Nat} (hB : FClaimB n) (hP : FClaimP n) {fnOk : Bool}
   | brk l rs2 => rw [h1] at hL; exact hL.elim
   | cont l rs2 => rw [h1] at hL; exact hL.elim
 
+/-- the bindings of a parallel `let` alone (initialisers, then the `popStackPutEnv`s in reverse order),
+against `evalList` followed by `bindAll` — what `fclaimE_letpar` does before the body -/
+theorem letpar_binds {n : Nat} (hP : FClaimP n) {fnOk : Bool} {self : String} {bs : List (String × Expr)}
+    (isFn : Nat → Bool) (c : Ctx) (gs : GS) (r : (List Instr × Bool) × GS)
+    (ha : (compileBinds isFn c false bs).run gs = .ok r) (hfn : FnameOk self c)
+    (hnd : (bs.map (·.1)).Nodup) (hbs : FfBinds fnOk self bs = true)
+    (m : Nat → Nat) (s : St) (rs : Ref.St) (fr : Nat) (pre post : List Instr) (hrel : RelF m s rs fr)
+    (hgen : fnOk = true → GenOk gs r.2 s)
+    (hseg : Seg s pre (r.1.1 ++ (bs.map (fun p => Instr.popStackPutEnv p.1)).reverse) post) :
+    SimFU (r.1.1 ++ (bs.map (fun p => Instr.popStackPutEnv p.1)).reverse) m s rs fr
+      (match Ref.evalList n (bs.map (·.2)) fr rs with
+       | .ok vs s => (match Ref.bindAll s fr (bs.map (·.1)) vs with
+          | some s => .ok () s
+          | none => .err s)
+       | .err s => .err s | .brk l s => .brk l s | .cont l s => .cont l s | .timeout => .timeout) := by
+  have hL := hP fnOk self bs hbs isFn c gs r ha hfn m s rs fr pre
+    ((bs.map (fun p => Instr.popStackPutEnv p.1)).reverse ++ post) hrel hgen (hseg.refocus (by simp))
+  cases h1 : Ref.evalList n (bs.map (·.2)) fr rs with
+  | ok vs' rs2 =>
+    rw [h1] at hL
+    obtain ⟨s2, m2, vs, r2, hfn2, hpc2, hdata2, hvs2, rel2, hm2, ext2, fr2, hcl2⟩ := hL
+    simp only
+    have hlen : vs.length = bs.length := by
+      have := ref_evalList_length _ _ _ _ _ _ h1
+      rw [hvs2] at this
+      simpa using this
+    have hmapI : ((bs.map (·.1)).zip vs).reverse.map (fun p => Instr.popStackPutEnv p.1)
+        = (bs.map (fun p => Instr.popStackPutEnv p.1)).reverse := by
+      rw [List.map_reverse]
+      congr 1
+      have : ((bs.map (·.1)).zip vs).map (fun p => Instr.popStackPutEnv p.1)
+          = (((bs.map (·.1)).zip vs).map (·.1)).map Instr.popStackPutEnv := by rw [List.map_map]; rfl
+      rw [this, List.map_fst_zip (by simp [hlen]), List.map_map]; rfl
+    have hmapD : ((bs.map (·.1)).zip vs).reverse.map (fun p => some p.2) = vs.reverse.map some := by
+      have : ((bs.map (·.1)).zip vs).map (fun p => some p.2)
+          = (((bs.map (·.1)).zip vs).map (·.2)).map some := by rw [List.map_map]; rfl
+      rw [List.map_reverse, List.map_reverse, this, List.map_snd_zip (by simp [hlen])]
+    have hndz : ((trPairs m2 ((bs.map (·.1)).zip vs)).map (·.1)).Nodup := by
+      rw [trPairs_zip, List.map_fst_zip (by simp [hlen])]; exact hnd
+    have hsegB : Seg s2 (pre ++ r.1.1)
+        (((bs.map (·.1)).zip vs).reverse.map (fun p => Instr.popStackPutEnv p.1)) post := by
+      rw [hmapI]
+      exact hseg.move hfn2 (by simp) (by rw [hpc2, hseg.pc]; simp)
+    have hokp : ∀ p ∈ ((bs.map (·.1)).zip vs).reverse, okName p.1 = true := by
+      intro p hp
+      have hmem : p.1 ∈ bs.map (·.1) := (List.of_mem_zip (show (p.1, p.2) ∈ _ from List.mem_reverse.mp hp)).1
+      exact ffBinds_names fnOk self bs hbs p.1 hmem
+    have hclp : ∀ p ∈ ((bs.map (·.1)).zip vs).reverse, VOk m2 s2 rs2 p.2 := by
+      intro p hp
+      exact hcl2 p.2 (List.of_mem_zip (show (p.1, p.2) ∈ _ from List.mem_reverse.mp hp)).2
+    have hvm := vm_defineAllF ((bs.map (·.1)).zip vs).reverse s2 rs2 fr _ _ s.data hokp hclp hsegB
+      (by rw [hmapD]; exact hdata2) rel2
+    obtain ⟨k2, hch2, hfc2⟩ := rel2.ctx
+    have hlt2 := hch2.lt
+    obtain ⟨fr0, hfr0⟩ : ∃ fr0, rs2.frames[fr]? = some fr0 := ⟨rs2.frames[fr], by simp [hlt2]⟩
+    have hrev := defineAll_reverse rs2 fr fr0 hfr0 (trPairs m2 ((bs.map (·.1)).zip vs)) hndz
+    rw [bindAll_eq_defineAll, hvs2, ← trPairs_zip]
+    rw [trPairs_reverse] at hvm
+    cases hfwd : defineAll rs2 fr (trPairs m2 ((bs.map (·.1)).zip vs)) with
+    | some a =>
+      cases hbwd : defineAll rs2 fr (trPairs m2 ((bs.map (·.1)).zip vs)).reverse with
+      | some b =>
+        rw [hfwd, hbwd] at hrev
+        rw [hbwd] at hvm
+        obtain ⟨va, vb, hva, hvb, hlook⟩ := hrev
+        obtain ⟨s3, r3, hfn3, hpc3, hdata3, rel3, ext3, fr3⟩ := hvm
+        simp only
+        rw [hvb] at rel3 ext3
+        have rel3a : RelF m2 s3 a fr := by rw [hva]; exact rel3.withVars_congr hfr0 hlook
+        have ext3a : RExt rs2 a := by rw [hva]; exact ⟨ext3.1.withVars_congr, ext3.2⟩
+        have m3 : Moved (r.1.1 ++ (bs.map (fun p => Instr.popStackPutEnv p.1)).reverse).length s s3 :=
+          ⟨hfn3.trans hfn2, by
+            rw [hpc3, hpc2]; simp only [List.length_append, List.length_reverse, List.length_map, List.length_zip, hlen, Nat.min_self]
+            push_cast; omega, hdata3⟩
+        exact ⟨s3, m2, r2.trans r3.toX, m3, rel3a, hm2, ext2.trans ext3a, fr2.trans fr3⟩
+      | none =>
+        rw [hfwd, hbwd] at hrev
+        exact hrev.elim
+    | none =>
+      cases hbwd : defineAll rs2 fr (trPairs m2 ((bs.map (·.1)).zip vs)).reverse with
+      | some b =>
+        rw [hfwd, hbwd] at hrev
+        exact hrev.elim
+      | none =>
+        rw [hbwd] at hvm
+        simp only
+        exact FailsX.of_reach r2 hvm.toX
+  | err rs2 => rw [h1] at hL; exact hL
+  | timeout => trivial
+  | brk l rs2 => rw [h1] at hL; exact hL.elim
+  | cont l rs2 => rw [h1] at hL; exact hL.elim
+
 /-! ## `for` loops (without `break`/`continue`) -/
 
 theorem vOk_not_mark {m s rs v} (h : VOk m s rs v) (L : Nat) : v ≠ .mark L := by
